@@ -567,6 +567,8 @@ def align_variable_names_with_convention(
     }
     # The same goes for names that are (also) bound by imports and except clauses
     declared_names |= tracing.get_imported_names(ast_tree)
+    # (import os.path binds os)
+    declared_names |= {name.split(".")[0] for name in tracing.get_imported_names(ast_tree)}
     declared_names |= {
         handler.name for handler in core.walk(ast_tree, ast.ExceptHandler) if handler.name
     }
